@@ -51,16 +51,17 @@ AllowedChecks ==
 Seq2Set(sq) == {sq[i] : i \in DOMAIN sq}
 Marked(nodes) == [i \in DOMAIN nodes |-> [nodes[i] EXCEPT !.marked = (i \in mk)]]
 \* witness class: on which side of every accepted reading the recorded value lies
+\* a pool the code left out of its mapping reads as 0 there (the methods index the Go map)
+Res(p) == IF p.present THEN p.res ELSE 0
 MapSig(p, nodes, now, reason) ==
     LET vals == {Remaining(rb, nodes, p.pool, now, reason, rd) : rd \in MapReadings, rb \in Readings(p.budgets)} IN
-    IF ~p.present THEN "pool-missing"
-    ELSE IF \A v \in vals : p.res > v THEN "mapping-over"
-    ELSE IF \A v \in vals : p.res < v THEN "mapping-under" ELSE "mapping-between"
+    IF \A v \in vals : Res(p) > v THEN "mapping-over"
+    ELSE IF \A v \in vals : Res(p) < v THEN "mapping-under" ELSE "mapping-between"
 MapChecks ==
     LET nodes == Marked(Ev.nodes) IN
     Cat([k \in DOMAIN Ev.pools |->
            LET p == Ev.pools[k] IN
-           Chk(p.present /\ G_C05_Mapping(p.res, p.budgets, nodes, p.pool, Ev.now, Ev.reason),
+           Chk(G_C05_Mapping(Res(p), p.budgets, nodes, p.pool, Ev.now, Ev.reason),
                "G_C05_Mapping", MapSig(p, nodes, Ev.now, Ev.reason))],
         DOMAIN Ev.pools)
 
@@ -73,8 +74,6 @@ StartChecks ==
            Chk(G_C05_StartWithinBudget(sel, p.budgets, nodes, p.pool, Ev.computed, Ev.reason),
                "G_C05_StartWithinBudget", "reason=" \o Ev.reason)],
         DOMAIN Ev.pools)
-    \* a command never re-selects a node that is already on its way out
-    \o Chk(sel \cap mk = {}, "G_C05_StartWithinBudget", "reselected-in-flight-node")
 
 \* ---- Step: effects on the ghost
 StepMk == IF ~Ev.applied THEN mk
